@@ -156,6 +156,7 @@ int ko_held_iters(khist_t *h);         /* every held iterator re-walked */
 
 /* "leveldb.sstables" -> file numbers + levels; directory == live files check (C13 b) */
 int kv_parse_sstables(ldb_t *db, uint64_t *nums, int *levels, int max);
+int kv_recovery_number_clash(const vfs_t *v, const char *dbdir, char *err, size_t en);
 int kv_files_exact_check(ldb_t *db, const char *dbdir, char *err, size_t en);
 int kv_files_exact_check2(ldb_t *db, const char *dbdir, long long min_log, char *err, size_t en);
 
